@@ -77,6 +77,10 @@ func (t *FnTrans) run() (err error) {
 	}
 	t.globalAxioms()
 
+	// global invariants of this package hold at entry
+	for _, gi := range t.eng.specs.GInv[fn.Pkg.Pkg.Path()] {
+		t.assume(t.selfEnv(t.entry, nil).evalBool(gi.E))
+	}
 	// requires
 	env := t.selfEnv(t.entry, nil)
 	if t.ct != nil {
@@ -85,7 +89,11 @@ func (t *FnTrans) run() (err error) {
 			t.assume(f)
 			_ = i
 		}
-		if len(t.ct.Requires) > 0 {
+		for _, c := range t.ct.Assumes {
+			t.assume(env.evalBool(c.E))
+			t.abstr["assumed (unchecked) precondition: "+c.Text] = true
+		}
+		if len(t.ct.Requires)+len(t.ct.Assumes) > 0 {
 			t.cover("requires", "true")
 		}
 		for _, g := range t.ct.Ghost {
@@ -225,7 +233,10 @@ func (t *FnTrans) entryVersion(c string) string {
 		return v
 	}
 	n := q(c + "@0")
-	t.declare(n, t.compSort[c])
+	if !t.declared[n] {
+		t.declare(n, t.compSort[c])
+		t.typedFresh(c, n)
+	}
 	t.entry.H[c] = n
 	return n
 }
@@ -260,7 +271,7 @@ func (t *FnTrans) termOf(v Val, sv ssa.Value) string {
 	}
 	if v.P != nil {
 		switch v.P.Kind {
-		case "obj", "cell":
+		case "obj", "cell", "elemrow":
 			return v.P.Ref
 		case "field":
 			// address of a struct embedded by value (or of a scalar field): injective function of the owner
@@ -342,16 +353,15 @@ func (t *FnTrans) loopHead(b *ssa.BasicBlock, l *loopInfo) {
 	}
 	if l.all {
 		for c := range t.compSort {
-			t.cur.H[c] = t.newConst(c+"@L", t.compSort[c])
+			t.cur.H[c] = t.freshVersion(c, "@L")
 		}
 		t.abstr["loop-havoc-all"] = true
 	} else {
 		for c := range l.writes {
-			s, ok := t.compSort[c]
-			if !ok {
-				continue // never materialised: no instruction will read it either (would fail in set())
+			if _, ok := t.compSort[c]; !ok {
+				t.fail("internal: loop write-set component %s has no sort", c)
 			}
-			t.cur.H[c] = t.newConst(c+"@L", s)
+			t.cur.H[c] = t.freshVersion(c, "@L")
 		}
 	}
 	// allocation counter only grows
@@ -578,7 +588,7 @@ func (t *FnTrans) instr(in ssa.Instruction) {
 		t.index(x)
 	case *ssa.Store:
 		p := t.ptrOf(x.Addr)
-		if p.Kind == "cell" || p.Kind == "obj" {
+		if p.Kind == "cell" || p.Kind == "obj" || p.Kind == "elemrow" {
 			t.nilCheck(p.Ref, "store through nil pointer")
 		}
 		t.checkGuarded(p, true)
@@ -622,6 +632,38 @@ func (t *FnTrans) instr(in ssa.Instruction) {
 			t.val(a)
 		}
 	case *ssa.RunDefers:
+		// ghost updates "at return" logically happen before deferred calls (e.g. Unlock) run,
+		// when the results are already determined
+		blk := x.Block()
+		if r, ok := blk.Instrs[len(blk.Instrs)-1].(*ssa.Return); ok && len(t.ghostAtReturn) > 0 && !t.ghostDone[r] {
+			ready := true
+			early := map[ssa.Value]string{}
+			for _, rv := range r.Results {
+				if _, isC := rv.(*ssa.Const); isC {
+					continue
+				}
+				if _, ok := t.vals[rv]; ok {
+					continue
+				}
+				// result cells (functions with defers keep results in allocs that are re-loaded after
+				// the deferred calls): read the cell now; sound when no deferred call writes it, which
+				// holds when all defers are lock intrinsics
+				if u, ok := rv.(*ssa.UnOp); ok && u.Op == token.MUL {
+					if a, ok := u.X.(*ssa.Alloc); ok && t.onlyLockDefers() {
+						if _, ok := t.vals[a]; ok {
+							early[rv] = t.load(t.ptrOf(a))
+							continue
+						}
+					}
+				}
+				ready = false
+			}
+			if ready {
+				t.earlyRes = early
+				t.runReturnGhosts(r)
+				t.earlyRes = nil
+			}
+		}
 		t.runDefers()
 	case *ssa.Go:
 		t.goStmt(x)
@@ -675,7 +717,30 @@ func (t *FnTrans) alloc(x *ssa.Alloc) {
 	t.define(n, "Int", r)
 	p := t.ptrFromRef(n, T)
 	t.store0(p, T)
+	t.initLocks(T, "", n)
 	t.vals[x] = Val{S: n, P: p}
+}
+
+// initLocks: mutexes embedded in a freshly allocated struct are unlocked.
+func (t *FnTrans) initLocks(T types.Type, prefix string, ref string) {
+	st, ok := t.resolve(T).Underlying().(*types.Struct)
+	if !ok {
+		return
+	}
+	for i := 0; i < st.NumFields(); i++ {
+		c, ft := t.fieldComp(T, prefix, i)
+		ft = t.resolve(ft)
+		if n, ok := ft.(*types.Named); ok && n.Obj().Pkg() != nil && n.Obj().Pkg().Path() == "sync" && (n.Obj().Name() == "Mutex" || n.Obj().Name() == "RWMutex") {
+			lc := t.comp("L"+c[1:], "(Array Int Int)")
+			save := t.curLoops
+			t.cur.H[lc] = app("store", t.get(lc), ref, "0")
+			_ = save
+			continue
+		}
+		if _, isS := ft.Underlying().(*types.Struct); isS {
+			t.initLocks(ft, c, ref)
+		}
+	}
 }
 
 // store0 zero-initialises the target of p without guarded-by checks.
@@ -873,7 +938,7 @@ func (t *FnTrans) unop(x *ssa.UnOp) {
 	switch x.Op {
 	case token.MUL: // load
 		p := t.ptrOf(x.X)
-		if p.Kind == "cell" || p.Kind == "obj" {
+		if p.Kind == "cell" || p.Kind == "obj" || p.Kind == "elemrow" {
 			t.nilCheck(p.Ref, "load through nil pointer")
 		}
 		t.checkGuarded(p, false)
@@ -964,7 +1029,12 @@ func (t *FnTrans) indexAddr(x *ssa.IndexAddr) {
 		at := t.resolve(u.Elem()).Underlying().(*types.Array)
 		t.oblige("idx", and(app("<=", "0", idx), app("<", idx, fmt.Sprint(at.Len()))), "index out of range")
 		in := t.ptrOf(x.X)
-		t.vals[x] = Val{P: &Ptr{Kind: "arrelem", In: in, Idx: idx, T: at.Elem()}}
+		if in.Kind == "elemrow" {
+			t.nilCheck(in.Ref, "index of nil array pointer")
+			t.vals[x] = Val{P: &Ptr{Kind: "elem", Comp: in.Comp, Ref: in.Ref, Idx: idx, T: at.Elem()}}
+		} else {
+			t.vals[x] = Val{P: &Ptr{Kind: "arrelem", In: in, Idx: idx, T: at.Elem()}}
+		}
 	default:
 		t.fail("IndexAddr on %s", XT)
 	}
@@ -1041,6 +1111,10 @@ func (t *FnTrans) sliceOp(x *ssa.Slice) {
 		p := t.ptrOf(x.X)
 		es := t.sortOf(at.Elem())
 		ec := t.comp("E."+mangle(es), "(Array Int (Array Int "+es+"))")
+		if p.Kind == "elemrow" {
+			t.bind(x, app("mk-slice", p.Ref, lo, app("-", hi, lo), app("-", mx, lo)))
+			return
+		}
 		base := t.arrayBase(p)
 		// synchronise: the row of the element heap holds the array's current content
 		t.set(ec, app("store", t.get(ec), base, t.load(p)))
@@ -1163,13 +1237,10 @@ func (t *FnTrans) ret(x *ssa.Return) {
 	for i, r := range x.Results {
 		res = append(res, SVal{S: t.term(r), T: t.resTypes[i], Sort: t.sortOf(t.resTypes[i])})
 	}
-	for _, g := range t.ghostAtReturn {
-		env := t.retEnv(res)
-		t.ghostUpdate(g, env)
+	if !t.ghostDone[x] {
+		t.runReturnGhosts(x)
 	}
-	if len(t.held) > 0 {
-		// locks still held at return must be declared by the contract (ensures held(...)); checked via lock state in ensures
-	}
+	t.checkGlobalInv("return")
 	if t.ct == nil {
 		return
 	}
@@ -1182,6 +1253,42 @@ func (t *FnTrans) ret(x *ssa.Return) {
 		t.obligeNamed(fmt.Sprintf("post.%d", i+1)+t.retSuffix(), "post", env.evalBool(c.E), c.Text)
 	}
 	t.frameCheck()
+}
+
+func (t *FnTrans) runReturnGhosts(x *ssa.Return) {
+	t.ghostDone[x] = true
+	var res []SVal
+	for i, r := range x.Results {
+		if e, ok := t.earlyRes[r]; ok {
+			res = append(res, SVal{S: e, T: t.resTypes[i], Sort: t.sortOf(t.resTypes[i])})
+			continue
+		}
+		res = append(res, SVal{S: t.term(r), T: t.resTypes[i], Sort: t.sortOf(t.resTypes[i])})
+	}
+	for _, g := range t.ghostAtReturn {
+		t.ghostUpdate(g, t.retEnv(res))
+	}
+}
+
+func (t *FnTrans) onlyLockDefers() bool {
+	for _, d := range t.defers {
+		f, ok := d.call.Call.Value.(*ssa.Function)
+		if !ok {
+			return false
+		}
+		if _, ok := intrinsicKeys[fnKey(f)]; !ok {
+			return false
+		}
+	}
+	return true
+}
+
+// checkGlobalInv: the package's global invariants (crash invariants) hold here.
+func (t *FnTrans) checkGlobalInv(where string) {
+	for i, gi := range t.eng.specs.GInv[t.fn.Pkg.Pkg.Path()] {
+		env := t.selfEnv(t.cur, t.entry)
+		t.oblige(fmt.Sprintf("ginv.%d", i+1), env.evalBool(gi.E), "global invariant after "+where+": "+gi.Text)
+	}
 }
 
 func (t *FnTrans) retSuffix() string {
